@@ -3,6 +3,7 @@ package checks
 import (
 	"fmt"
 	"strings"
+	"unicode/utf8"
 
 	kvql "github.com/c4pt0r/kvql"
 
@@ -24,6 +25,9 @@ func (c16) ID() string { return "C16" }
 var c16Full = []byte("aB1. '\"`~^=!*+-/<>&|()[],;\\")
 var c16Core = []byte("aB1. '\"`=!<^&(,-\\")
 
+// c16Uni: a two-byte character (0xC3 0xA9) among separators: byte offsets and rune counts differ
+var c16Uni = []byte("a '=|\xc3\xa9")
+
 type c16Space struct {
 	alpha  []byte
 	maxLen int
@@ -32,9 +36,9 @@ type c16Space struct {
 
 func c16Spaces(tier string) []c16Space {
 	if tier == "thorough" {
-		return []c16Space{{c16Full, 5, 2}, {c16Core, 6, 2}}
+		return []c16Space{{c16Full, 5, 2}, {c16Core, 6, 2}, {c16Uni, 7, 2}}
 	}
-	return []c16Space{{c16Full, 4, 2}, {c16Core, 5, 2}}
+	return []c16Space{{c16Full, 4, 2}, {c16Core, 5, 2}, {c16Uni, 5, 2}}
 }
 
 func c16Streams(tier string) int {
@@ -63,7 +67,7 @@ func (c c16) NumCases(tier string) int {
 func (c16) Exhaustive(string) bool { return true }
 
 func (c16) Rule() string {
-	return "exhaustive: every string up to the length bound over two token-relevant alphabets (quick: len<=4 over 27 symbols, len<=5 over 17; thorough: len<=5 / len<=6), each judged by token truth and by comparison with a reference tokenizer; plus generated token streams rendered with every subset of optional blanks. A string is non-trivial if it yields at least two tokens or contains a quoted literal; enumerated strings are distinct by construction, streams are counted by hash."
+	return "exhaustive: every string up to the length bound over three token-relevant alphabets (quick: len<=4 over 27 symbols, len<=5 over 17, len<=5 over 7 incl. the two bytes of a non-ASCII character; thorough: len<=5 / len<=6 / len<=7), each judged by token truth and by comparison with a reference tokenizer; plus generated token streams rendered with every subset of optional blanks. A string is non-trivial if it yields at least two tokens or contains a quoted literal; enumerated strings are distinct by construction, streams are counted by hash."
 }
 
 func (c16) Assumptions() []string {
@@ -243,6 +247,12 @@ func (c c16) judge(ctx *rt.Ctx, q string, fromStream bool) {
 				rec.Inc("twochar_ops_seen")
 			}
 		default: // word / keyword / number
+			if strings.ContainsRune(t.Data, utf8.RuneError) && !utf8.ValidString(q) {
+				// case folding of a byte that is not valid UTF-8 replaces it (U+FFFD): what the
+				// folded text of such a word should be is not defined
+				rec.NotJudged("word containing a byte that is not valid UTF-8 (case folding replaces it)")
+				return
+			}
 			if t.Pos+len(t.Data) > len(q) || strings.ToLower(q[t.Pos:t.Pos+len(t.Data)]) != t.Data {
 				bad = "word text differs from the (case-folded) query bytes at its offset"
 			} else {
@@ -437,10 +447,10 @@ var c16Vocab = func() []c16Tok {
 	var v []c16Tok
 	for _, w := range []string{"select", "WHERE", "Key", "value", "limit", "order", "by", "asc", "DESC", "true", "false", "as", "group", "in", "BETWEEN", "put", "remove", "and", "OR", "delete",
 		"a", "b1", "foo_bar", "Upper", "x", "1", "42", "007", "1.5", "0.25", "k.v",
-		"LongFieldName", "L2_Distance", "COSINE_DISTANCE", "ValueAsInt9", "12345678901", "a\\b"} {
+		"LongFieldName", "L2_Distance", "COSINE_DISTANCE", "ValueAsInt9", "12345678901", "a\\b", "na\xc3\xafve"} {
 		v = append(v, c16Tok{w, strings.ToLower(w), 'w'})
 	}
-	for _, s := range []string{"'x'", "\"y z\"", "'it\"s'", "\"a'b\"", "''", "' '", "'a,b'", "'sel ect'", "'(1+2)'", "\"`\"", "'AND'", "'k1'", "'dir\\'", "\"\\\\\"", "'a\\b'"} {
+	for _, s := range []string{"'x'", "\"y z\"", "'it\"s'", "\"a'b\"", "''", "' '", "'a,b'", "'sel ect'", "'(1+2)'", "\"`\"", "'AND'", "'k1'", "'dir\\'", "\"\\\\\"", "'a\\b'", "'\xc3\xa9'", "\"\xe6\x97\xa5\xe6\x9c\xac x\"", "' x '"} {
 		v = append(v, c16Tok{s, s[1 : len(s)-1], 'q'})
 	}
 	for _, s := range []string{"`n`", "`a b`", "`X'y`"} {
@@ -452,8 +462,8 @@ var c16Vocab = func() []c16Tok {
 	return v
 }()
 
-const c16NWords = 37
-const c16NQuoted = 18
+const c16NWords = 38
+const c16NQuoted = 21
 
 // blankMandatory says whether a blank is required between two adjacent tokens
 // for them to remain two tokens (two words; or operator characters that fuse).
